@@ -185,6 +185,15 @@ pub fn judge<'f>(s: &mut Sess, _fs: &'f Fs, _hs: &mut [Option<H<'f>>], op: &Op, 
                 }
             } else {
                 if x.errs.contains(&ek) {
+                    // C15: a call rejected for its name must not have touched the image (status byte aside)
+                    if s.cfg.on("C15") && (ek == EK::NameLength || ek == EK::NameChar) {
+                        let post = s.dev.snapshot();
+                        let so = s.prev.as_ref().map_or(0x25, |p| p.g.status_off);
+                        if let Some((a, b)) = _pre.diff(&post).into_iter().find(|(a, b)| !(*a == so && *b == so + 1)) {
+                            let d = format!("{} was rejected with {} but bytes {}..{} of the image changed", op.show(), ek.name(), a, b);
+                            s.violate("C15", "rejected-name-side-effect", op, ek.name(), d);
+                        }
+                    }
                     return;
                 }
                 // out-of-space family
@@ -253,6 +262,8 @@ pub fn judge<'f>(s: &mut Sess, _fs: &'f Fs, _hs: &mut [Option<H<'f>>], op: &Op, 
                     _ => return,
                 },
             };
+            s.touch.push(node);
+            s.touch.push(s.model.nodes[node].parent);
             if ek != EK::Ok {
                 s.violate("C01", "list-error", op, ek.name(), format!("{} failed with {}", op.show(), ek.name()));
                 return;
